@@ -38,6 +38,8 @@ def check(run):
     R.rule('C14.lazy', 'frames are handed on one by one: a Ping parsed before a later bad frame in the same read is still '
                        'delivered and answered', 5)
     from . import C09, C04
+    from .common import lazy_pipeline
+    lazy_pipeline(R, 'C14.lazy')
     with R.as_rule('C14.quiet'):
         C09.socknull(R)
     with R.as_rule('C14.lazy'):
